@@ -5,7 +5,7 @@ import z3
 import frontend
 import ops
 from ops import SB, SI, SR, truthy, equal, compare, arith, zand, zor, znot, asz, lift
-from core import (KTotal, KBits, SVal, TupleVal, LocalDict, FuncVal, ClassVal, ModuleVal, ExcVal, KRef, KEnum, KName,
+from core import (KAny, KTotal, KBits, SVal, TupleVal, LocalDict, FuncVal, ClassVal, ModuleVal, ExcVal, KRef, KEnum, KName,
                   KInt, KReal, KBool, KStr, KOpt, KList, KDict, KSet, KCounter, KTuple, KExt, KVec, KVec3,
                   CheckerError, fresh_name, fresh_val, I, B, R)
 
@@ -762,6 +762,9 @@ class ExprMixin:
                 i = lift(idx, KInt).z
             ok = z3.And(i >= 0, i < n)
             return self.partial(st, fr, ok, 'IndexError', lambda s: SVal(KStr, [z3.SubString(sz, i, 1)]))
+        if k == KAny and isinstance(idx, str):
+            # a field of an opaque JSON payload: the projection any_get_<key>
+            return [(st, SVal(KAny, [self.any_get_fn(idx)(base.z)]))]
         if k == KName and idx == 0 and 'fs_hidden' in self.reg.ufuncs:
             # first character of a (non-empty) name: all that is known about it is whether it is a dot (fs_hidden)
             hid = self.reg.ufuncs['fs_hidden'][0](base.z)
